@@ -158,7 +158,7 @@ func recSites(p *Prog, comp []*ssa.Function) []recSite {
 // c16Acyclic: recursion that follows references by name and is safe only because the referenced graph was checked to
 // be acyclic elsewhere; each entry names the rule that establishes it.
 var c16Acyclic = map[string]string{
-	"resolved.resolverState.resolveType":    "common-type references: Resolve rejects cyclic common types before resolving (R16.2-cycle-check-first)",
+	"resolved.resolverState.resolveType": "common-type references: Resolve rejects cyclic common types before resolving (R16.2-cycle-check-first)",
 }
 
 func c16Recursion(p *Prog, r *Report) {
